@@ -112,7 +112,7 @@ func runC06(s *core.Sim, tier string) RunInfo {
 			}
 			hist = append(hist, fmt.Sprintf("delete [%d,%d) accept=%v err=%v", from, to, ok, err != nil))
 			switch {
-			case ok && err == nil:
+			case ok && err == nil && strict:
 				m.Delete(from, to)
 			case ok && err != nil && failMode:
 				// a deletion that failed under injected write errors: the
@@ -120,6 +120,9 @@ func runC06(s *core.Sim, tier string) RunInfo {
 				// reopen oracle applies.
 				strict = false
 				s.Probe("delete-failed-under-write-errors")
+			case !strict:
+				// an earlier deletion failed under injected write errors: the model no longer
+				// tells which ranges are acceptable, only the reopen oracle applies
 			case ok:
 				s.Violate("delete-rejected", nil, "DeleteRange(%d,%d) on %s: %v", from, to, m, err)
 			case err == nil:
@@ -308,6 +311,12 @@ func (w *SW) checkReopenedAt(st *store.Store[*H], d *simdisk.Disk, why string) {
 		switch {
 		case herr == nil:
 			start = head.Height() + 1
+		case terr == nil:
+			// no head but a tail: the chain is the contiguous run of survivors above the tail
+			start = tail.Height() + 1
+			for surv[start] {
+				start++
+			}
 		case maxS > 0:
 			start = maxS + 1
 		}
